@@ -390,6 +390,8 @@ func (db *SingleBucketBackend) PutObject(
 
 	f, err := db.fs.Create(objectFilePath)
 	if err != nil {
+		// Do not leave the directories made for this key behind:
+		db.removeEmptyDirsLocked(path.Dir(path.Clean(objectName)))
 		return result, err
 	}
 
@@ -496,9 +498,15 @@ func (db *SingleBucketBackend) deleteObjectLocked(bucketName, objectName string)
 		return err
 	}
 
-	// Remove the directories the deleted key leaves empty, otherwise they keep
-	// showing up as common prefixes.
-	for dir := path.Dir(path.Clean(objectName)); dir != "." && dir != "/" && !strings.HasPrefix(dir, ".."); dir = path.Dir(dir) {
+	db.removeEmptyDirsLocked(path.Dir(path.Clean(objectName)))
+
+	return nil
+}
+
+// removeEmptyDirsLocked removes dir and its parents while they are empty,
+// otherwise they keep showing up as common prefixes.
+func (db *SingleBucketBackend) removeEmptyDirsLocked(dir string) {
+	for ; dir != "." && dir != "/" && !strings.HasPrefix(dir, ".."); dir = path.Dir(dir) {
 		entries, err := afero.ReadDir(db.fs, filepath.FromSlash(dir))
 		if err != nil || len(entries) > 0 {
 			break
@@ -507,8 +515,6 @@ func (db *SingleBucketBackend) deleteObjectLocked(bucketName, objectName string)
 			break
 		}
 	}
-
-	return nil
 }
 
 // CreateBucket cannot be implemented by this backend. See MultiBucketBackend if you
